@@ -84,6 +84,16 @@ def stepIndex (s : DState) (kv : List (String × String)) : DState × Option Str
   let evs := seqEvs (scanned ctxs s.st.live)
   let eevs := effEvs s.st.blobs evs
   let st := s.st
+  -- a build disturbed by a transient LISTING fault: whether the command reports the fault or gets
+  -- over it is not determined by the property; the implementation's verdict is an input (`res`).
+  -- Reported failure: nothing is assumed to have been added. Reported success: the index must
+  -- be complete (the property's "as long as the commands report success").
+  if (kvGet kv "res") == some "err" then
+    ({ s with st := { st with now := st.now + 1 } }, some "any")
+  else if (kvGet kv "res") == some "ok" then
+    let st' := if resume then step codeCfg st (.resume n ctxs evs fs) else step codeCfg st (.index n ctxs evs fs)
+    ({ s with st := st' }, some "any")
+  else
   if resume && st.chunks.isEmpty then
     -- no chunk to take the index time from: the command fails (the code panics on a nil time)
     ({ s with st := step codeCfg st (.resume n ctxs evs fs) }, some "err")
